@@ -87,6 +87,8 @@ fn magnitudes(it: &Item) -> (String, String) {
     match it.mag {
         0 => (same_quantity(&it.u1).to_string(), same_quantity(&it.u2).to_string()),
         1 => ("3".to_string(), "7".to_string()),
+        // the same raw number with two different units: equal magnitudes, different quantities
+        3 => ("5".to_string(), "5".to_string()),
         _ => ("12.5".to_string(), "-0.25".to_string()),
     }
 }
@@ -407,13 +409,15 @@ fn enumerate_all() -> Vec<Case> {
     for u1 in &units {
         for u2 in &units {
             for op in PAIR_OPS {
-                for mag in 0..3u8 {
+                for mag in 0..4u8 {
                     if (op == "emit*" || op == "emit-div" || op == "unit" || op == "*-unit" || op == "div-unit" || op == "compatible") && mag != 1 {
                         // the value plays no role
                         continue;
                     }
                     let it = Item { op: op.to_string(), u1: u1.to_string(), u2: u2.to_string(), u3: String::new(), mag };
                     match expect(&it) {
+                        // rejections do not depend on the value: three magnitudes are enough
+                        Exp::Error if mag == 3 => {}
                         Exp::Error => reject.push(it),
                         _ => ok.push(it),
                     }
@@ -705,7 +709,7 @@ impl Prop for C08 {
         "C08"
     }
     fn rule(&self) -> String {
-        "enumerated: every ordered pair over 34 known units + the unknown unit `foo` + unitless (36^2 = 1296) x {+, -, <, ==, !=, %, math.min, math.max, math.div (inspect, math.unit, emission), * (inspect, math.unit, emission), math.compatible, math.unit} x 3 magnitudes (same quantity in both units / 3 and 7 / 12.5 and -0.25; one magnitude where the value plays no role), plus round-trip and transitivity laws over all ordered pairs / triples of each conversion class x 3 values; items that must evaluate are batched 200 per compile, items that must be rejected are compiled alone. Enumerated as well: all three-factor chains (a*b)/c, (a/b)/c, (a/b)*c over 11 representative units. Generated (thorough tier only): chains of 1..5 `*` / math.div steps over the same units (+ a second unknown unit), discarded if an intermediate result exceeds 2 numerator or 2 denominator units. Non-trivial: a pair item with two distinct units; a chain with at least one cancellation or a compound result. Distinct = distinct item / chain expression.".into()
+        "enumerated: every ordered pair over 34 known units + the unknown unit `foo` + unitless (36^2 = 1296) x {+, -, <, ==, !=, %, math.min, math.max, math.div (inspect, math.unit, emission), * (inspect, math.unit, emission), math.compatible, math.unit} x 4 magnitudes (same quantity in both units / 3 and 7 / 12.5 and -0.25 / the same raw number 5 with both units; one magnitude where the value plays no role), plus round-trip and transitivity laws over all ordered pairs / triples of each conversion class x 3 values; items that must evaluate are batched 200 per compile, items that must be rejected are compiled alone. Enumerated as well: all three-factor chains (a*b)/c, (a/b)/c, (a/b)*c over 11 representative units. Generated (thorough tier only): chains of 1..5 `*` / math.div steps over the same units (+ a second unknown unit), discarded if an intermediate result exceeds 2 numerator or 2 denominator units. Non-trivial: a pair item with two distinct units; a chain with at least one cancellation or a compound result. Distinct = distinct item / chain expression.".into()
     }
     fn assumptions(&self) -> Vec<String> {
         vec![
